@@ -115,6 +115,34 @@ class _Handler(object):
         return self.prices[asset] * 0.5
 
 
+class _Source(object):
+    """A data source for the library's own BacktestDataHandler (get_bid / get_ask)."""
+    def __init__(self, prices, factor=1.0):
+        self.prices, self.factor = prices, factor
+
+    def get_bid(self, dt, asset):
+        return self.prices[asset] * 0.5 * self.factor
+
+    def get_ask(self, dt, asset):
+        return self.prices[asset] * self.factor
+
+
+def _real_handler(prices):
+    """The library's BacktestDataHandler over a primary source quoting `prices` and a fallback quoting twice as much: the
+    sizing price is the handler's ask, i.e. the FIRST source that has one."""
+    from qstrader.data.backtest_data_handler import BacktestDataHandler
+    dh = BacktestDataHandler(None, data_sources=[_Source(prices), _Source(prices, 2.0)])
+    return dh
+
+
+def _set_prices(dh, prices):
+    if isinstance(dh, _Handler):
+        dh.prices = prices
+    else:
+        for src in dh.data_sources:
+            src.prices = prices
+
+
 def call_real(c, pool=None):
     """Returns ('err', class name) or ('q', [quantities in ascending asset order]).  With a pool, the sizer object
     (and its broker / handler) that already served earlier cases with the same kind and parameter is used again."""
@@ -132,10 +160,11 @@ def call_real(c, pool=None):
             sizer, broker, dh, wobj = pool[key]
             fresh = _Broker(float(Fraction(c["eq"])), c["fee"])
             broker.equity, broker.fee_model = fresh.equity, fresh.fee_model
-            dh.prices = prices
+            _set_prices(dh, prices)
         else:
             broker = _Broker(float(Fraction(c["eq"])), c["fee"])
-            dh = _Handler(prices)
+            # every third sizer reads its prices through the library's own data handler with two sources
+            dh = _real_handler(prices) if (len(c["w"]) + len(str(c["par"]))) % 3 == 0 else _Handler(prices)
             if c["kind"] == "dw":
                 sizer = DollarWeightedCashBufferedOrderSizer(broker, "pf", dh, cash_buffer_percentage=float(Fraction(c["par"])))
             else:
